@@ -198,7 +198,7 @@ fn data_attr(fault_mode: bool) -> Attr {
 fn attr_for(sh: &Shared) -> Attr {
     if sh.fault_mode {
         let ap = *sh.append_mode.lock().unwrap();
-        Attr { prop: "C08", data: "C08-I3", other_prop: "C08", other: "C08-I3", sig: if ap { ":after-fault:append-mode" } else { ":after-fault:truncate-mode" }, also: None }
+        Attr { prop: "C08", data: "C08-I3", other_prop: "C08", other: "C08-I3", sig: if ap { ":after-fault:append-mode" } else { ":after-fault:truncate-mode" }, also: Some(("C05", "C05-I3")) }
     } else {
         let mut a = data_attr(false);
         a.also = match &sh.trigger {
@@ -540,7 +540,7 @@ pub fn gen_roller(rng: &mut Rng, tier: Tier, allow_special: bool) -> RollerSpec 
     }
     let base = *rng.pick(&[0u32, 0, 1, 1, 3, 7]);
     let count = if tier == Tier::Thorough && rng.chance(1, 8) { rng.range(6, 8) as u32 } else { rng.weighted(&[1, 3, 4, 3, 2, 1]) as u32 };
-    let mut kinds = vec![PatKind::Name, PatKind::Name, PatKind::Dir, PatKind::Repeated, PatKind::Env, PatKind::EnvSlash, PatKind::DirInner];
+    let mut kinds = vec![PatKind::Name, PatKind::Name, PatKind::Dir, PatKind::Repeated, PatKind::Env, PatKind::EnvSlash, PatKind::DirInner, PatKind::EnvTwo];
     if allow_special {
         kinds.push(PatKind::SecondMount);
         kinds.push(PatKind::DirSplit);
@@ -583,6 +583,13 @@ fn gen_trigger(rng: &mut Rng, profile: &str) -> TriggerSpec {
         "C06" => TriggerSpec::Size { limit: gen_limit(rng) },
         "C06-fault" => TriggerSpec::Size { limit: *rng.pick(&[0u64, 10, 40, 100, 100, 300, 1024]) },
         "C17-fault" => TriggerSpec::OnStartUp { min_size: *rng.pick(&[0u64, 1, 1, 10, 50]) },
+        "C16-fault" => TriggerSpec::Time { unit: *rng.pick(&[Unit::Second, Unit::Minute, Unit::Hour, Unit::Day]), n: *rng.pick(&[1i64, 2, 5, 7]), modulate: rng.chance(1, 2), max_delay: 0 },
+        "C05-fault" => match rng.weighted(&[4, 4, 1, 2]) {
+            0 => TriggerSpec::Size { limit: *rng.pick(&[0u64, 10, 40, 100, 300, 1024]) },
+            1 => TriggerSpec::Script { pre: rng.chance(1, 2), fire: vec![] },
+            2 => TriggerSpec::OnStartUp { min_size: *rng.pick(&[0u64, 1, 10]) },
+            _ => TriggerSpec::Time { unit: *rng.pick(&[Unit::Second, Unit::Minute]), n: *rng.pick(&[1i64, 2]), modulate: false, max_delay: 0 },
+        },
         "C17" => TriggerSpec::OnStartUp { min_size: *rng.pick(&[0u64, 1, 1, 2, 10, 50, 200, 1024, 1025]) },
         "C08" | "C08-obst" => match rng.weighted(&[5, 3, 1, 1]) {
             0 => TriggerSpec::Size { limit: *rng.pick(&[0u64, 10, 40, 100, 100, 300, 1024]) },
@@ -763,7 +770,7 @@ pub fn generate(rng: &mut Rng, tier: Tier, profile: &str) -> Scn {
     let mut phases = phases;
     let mut append = append;
     let mut roller = roller;
-    if profile.starts_with("C08") || profile == "C06-fault" || profile == "C17-fault" {
+    if profile.starts_with("C08") || profile.ends_with("-fault") {
         // the fault-free base execution and its fault variants must be the same history
         for ph in phases.iter_mut() {
             if let Phase::Restart { overlap, .. } = ph {
